@@ -258,6 +258,7 @@ static int known_sign(const z3::expr& e) {      // +1 / -1: sign established syn
 }
 // a / b ; establishes the sign of every numerator factor of b (forks where both signs are feasible)
 static bool div0_prune = false;
+static bool log_atoms = false;
 static void div_by_zero() {
   // IEEE gives +-inf/NaN here; the sign of a real zero is not modelled, so the path cannot be continued soundly.
   // With SYM_DIV0_PRUNE the path is dropped and counted (the evidence lists it as outside the claim); otherwise it is an inconclusive ABORT.
@@ -734,7 +735,8 @@ double __sym_un(const char* name, double a) {
   std::string n(name);
   if (!is_sym(a)) {
     static std::map<std::string, un_t> tab = {{"exp", exp},{"log", log},{"sqrt", sqrt},{"fabs", fabs},{"tanh", tanh},{"atanh", atanh},{"tan", tan},{"atan", atan},{"cosh", cosh},{"sinh", sinh},{"cos", cos},{"sin", sin},{"floor", floor},{"ceil", ceil},{"lgamma", lgamma},{"log10", log10},{"log1p", log1p},{"expm1", expm1},{"exp2", exp2},{"log2", log2},{"round", round},{"trunc", trunc},{"rint", rint},{"nearbyint", nearbyint},{"tgamma", tgamma},{"erf", erf},{"erfc", erfc},{"asin", asin},{"acos", acos}};
-    return tab.at(n)(a);
+    // SYM_LOG_ATOMS: the logarithm of a concrete positive number other than 1 is kept as an exact atom log(q), so that exp(sum c_k log q_k) = prod q_k^c_k stays exact
+    if (!(log_atoms && mode == REAL && n == "log" && a > 0 && a != 1 && a < 1e300)) return tab.at(n)(a);
   }
   if (mode == REAL) {
     Term ta = T(a); z3::expr x = E(ta);
@@ -917,6 +919,7 @@ int main(int argc, char** argv) {
   if (getenv("SYM_TRACE_FORKS")) trace_forks = true;
   if (getenv("SYM_ABS_NOFORK")) abs_nofork = true;
   if (getenv("SYM_DIV0_PRUNE")) div0_prune = true;
+  if (getenv("SYM_LOG_ATOMS")) log_atoms = true;
   if (const char* o = getenv("SYM_OUT")) { outfd = open(o, O_WRONLY | O_CREAT | O_APPEND, 0644); if (outfd < 0) { perror("SYM_OUT"); return 2; } }
   sh = (Shared*)mmap(0, sizeof(Shared), PROT_READ | PROT_WRITE, MAP_SHARED | MAP_ANONYMOUS, -1, 0);
   memset(sh, 0, sizeof(Shared)); sh->maxprocs = getenv("SYM_PROCS") ? atoi(getenv("SYM_PROCS")) : 1;
